@@ -321,6 +321,10 @@ def check(ctx):
     from . import c05 as _c05
     ctx.rule('R8', 'Axis.__setitem__ keeps the widened label buffer it writes into', 1)
     _c05.rule_axis_setitem(ctx, 'R8')
+    # the NaN fill promotes integer data (signed or unsigned) to float: widening table of _maybe_cast_type (shared with C03)
+    from . import c03 as _c03
+    from ..report import Renamed as _RenW
+    _c03.rule_widening(_RenW(ctx, {'*': 'R10'}))
     ctx.not_decided += ['slice-by-slice equality with the original data', 'identity on own labels', 'searchsorted neighbour semantics for method=']
     ctx.trusted += ['ndarray.take(indices, axis=) semantics', 'np.searchsorted / ndarray.take(mode=clip) semantics']
     return EXPLANATION
